@@ -16,6 +16,8 @@ mod fam_attempt;
 mod fam_sched;
 mod fam_outline;
 mod fam_norm;
+mod zoo;
+mod fam_trace;
 
 use std::{collections::BTreeMap, collections::HashSet, fs, io::Write as _, path::Path};
 
@@ -35,11 +37,18 @@ fn families() -> Vec<(&'static str, fn(&mut Rng, usize) -> Case)> {
         ("sched.lazy", fam_sched::gen_sched_lazy_case),
         ("outline.expand", fam_outline::gen_expand),
         ("norm.run", fam_norm::gen_norm),
+        ("zoo.reg", zoo::gen_reg),
+        ("zoo.dispatch", zoo::gen_dispatch),
+        ("trace.run", fam_trace::gen_trace),
     ]
 }
 
 fn main() {
     let args: Vec<String> = std::env::args().collect();
+    if args.len() == 3 && args[1] == "--tracing-child" {
+        fam_trace::child(args[2].parse().expect("seed"));
+        return;
+    }
     if args.len() < 5 {
         eprintln!("usage: cvh <family> <seed> <count> <out-dir>");
         std::process::exit(2);
